@@ -1,9 +1,12 @@
 """C01 — use-def and ownership links stay consistent under every edit history (DESIGN.md 5/C01).
 
-Theorems: `WF` (the invariant) is preserved by every operation of the kernel model for every argument and
-outcome, hence after every history.  Correspondence: random histories over the public mutation alphabet run
-on the real objects and on the Lean model (`kernel.run`), outcome and state delta compared after every call.
-Oracle: `kernel_ops.wf_oracle` — the invariant itself on the real objects through public accessors.
+Theorems (lean/IrVerif/Props/C01.lean): the invariant `WF` = I_use, I_prod, I_root, I_own, I_key, I_node is
+preserved by every call of the kernel model (`Model/Kernel.lean`) for every argument and outcome — single
+calls (`C01_step`) and the composite convenience calls (`C01_step_conv`) — hence after every history.
+Correspondence: exhaustive small-scope histories + random histories over the public mutation alphabet are
+run on the real objects and on the Lean model (`kernel.run`); outcome and state delta (every record that
+changed, objects as creation indices) are compared after every call.
+Oracle: `kernel_ops.wf_oracle` — the invariant itself on the real objects through public accessors only.
 """
 from __future__ import annotations
 
@@ -20,17 +23,26 @@ THEOREMS = [
     "IrVerif.Kernel.C01_history_from",
 ]
 ASSUMPTIONS = [
+    "alphabet: Value(...), const_value=, Node(...) (inputs, num_outputs / outputs, graph=, name), Graph(...), "
+    "replace_input_with, resize_inputs/outputs, Value.replace_all_uses_with, every mutator of the tracked "
+    "input/output lists (append extend insert pop remove clear [i]= [a:b:c]= del[i] del[a:b:c] reverse += *=) and of "
+    "the initializer mapping (d[k]= del d[k] add pop popitem clear update |= setdefault register_initializer), "
+    "Value.name=, Graph/Function.append extend insert_before insert_after remove(safe) sort, Node.append/prepend, "
+    "convenience.replace_all_uses_with / rename_values / replace_nodes_and_values",
     "arguments are existing objects of the right class (the model is typed); Value(producer=...), the raw "
-    "Node.graph setter and underscore attributes are outside the alphabet",
-    "the node sequence is modelled as a duplicate-free list (its pointer-level refinement is C11's)",
-    "Python asserts used as internal consistency checks are not error points of the model",
+    "Node.graph setter, underscore attributes, `.data` and list.sort()/copy() are outside the alphabet",
+    "the node sequence is modelled as a duplicate-free list with the documented move semantics (its pointer-level "
+    "refinement is C11's); Graph.sort enters the model as 'some permutation of each involved graph' (C12 decides which)",
+    "Python asserts used as internal consistency checks are not error points of the model; inside the mutation "
+    "phase of one call the model may order primitive effects differently from the statements (no error point in between)",
+    "the name authority's generated names use a bounded loop (|seen|+1 iterations suffice: C15)",
 ]
 
 
 def run(ctx: Ctx) -> None:
     ctx.rule = (
-        "a case is one history (list of calls with concrete arguments); non-trivial when it contains a call "
-        "other than object construction of values; distinct by the canonical op list"
+        "a case is one history (list of calls with concrete arguments, objects as creation indices); non-trivial "
+        "when it contains a call other than value / tensor construction; distinct by the canonical call list"
     )
     for obj in load_corpus(PROP):
         K.replay_ops(ctx, PROP, obj["ops"])
